@@ -108,6 +108,8 @@ def fill(parent, node, v, mode, placed, path=()):
 
 def add_child(parent, c, v, mode, placed, path):
     if c.kind == 'GRP':
+        if not [x for x in c.children if x.card[1] != 0]:
+            return 0          # a group the table leaves without members (e.g. QBP_Q13_QBP in v2.4) cannot be instantiated
         g = parent.add_group(c.name)
         n = fill(g, c, v, mode, placed, path + (c.name,))
         if n == 0:
